@@ -215,6 +215,21 @@ def gen(rng, nrng, tier):
         if nx == ny or auto:
             q = dict(p)
             yield ("xcorr", q)
+    # long records and lengths where N + maxlags - 1 (or N + maxlags) is a power of two (FFT-size coincidences)
+    big = [(256, 1), (256, 0), (257, None), (300, 213), (300, 5), (513, 0), (1000, 25), (64, 1), (33, 32), (128, 1), (129, 0)]
+    for j, (N, ml) in enumerate(big if tier == "thorough" else big[: 7]):
+        for cplx in (False, True):
+            x = _data(nrng, N, cplx, j)
+            y = _data(nrng, N, cplx, j + 1)
+            norm = NORMS[j % 4]
+            for auto in (True, False):
+                nm = norm if (auto or norm != "coeff") else "biased"
+                q = {"x": x, "auto": auto, "norm": nm, "maxlags": ml}
+                if not auto:
+                    q["y"] = y
+                yield ("xcorr", q)
+                if ml is not None and ml <= 40:
+                    yield ("corr", dict(q))
     methods = ["autocorrelation", "prewindowed", "postwindowed", "covariance", "modified"]
     nm = 100 if tier == "quick" else 1500
     for i in range(nm):
